@@ -30,6 +30,12 @@ func (vc *VC) call(x *ssa.Call) {
 		vc.builtin(x, b)
 		return
 	}
+	// inside a package initialiser, the calls to the initialisers of the imported packages are no-ops: the Go runtime
+	// has initialised every dependency before (their once-flags are set), and they cannot name this package's variables
+	if callee, ok := c.Value.(*ssa.Function); ok && callee.Synthetic == "package initializer" && vc.fn != nil &&
+		vc.fn.Synthetic == "package initializer" && callee != vc.fn {
+		return
+	}
 	var args []Term
 	var argTypes []types.Type
 	info := vc.resolveCallee(c)
